@@ -502,6 +502,30 @@ class Cache(Driver):
                             "cache-privacy" if "privacy-switch" in flags else "subkey",
                             detail=" %d subkey(%d, is_hardened=%s, as_private=%s)" % (step, i, h, a))
             expect_node("parent-after-history", parent, rparent, ver, "parent-mutated")
+            if private_parent:
+                # the public copy taken AFTER the history must behave like a fresh public node: what the private node
+                # derived (and memoised) must not become available through it
+                pub = parent.public_copy()
+                rpub = ref.neuter(rparent)
+                for (i, h, a) in OPS:
+                    i, h = int(i), bool(h)
+                    err = None
+                    try:
+                        child = pub.subkey(i, is_hardened=h, as_private=a)
+                    except Exception as e:
+                        err = "EXC %s" % type(e).__name__
+                    if h:
+                        if err is None:
+                            raise Mismatch("hardened-from-public", "public_copy() refuses hardened child %dH" % i, "returned %r" % (child,),
+                                           clause="hardened-from-public-copy")
+                        continue
+                    if err is not None:
+                        if a is True:
+                            continue
+                        raise Mismatch("exception", "public_copy().subkey(%d)" % i, err, clause="exception")
+                    expect_node("public-copy-subkey", child, ref.neuter(ref.derive(rparent, [(i, False)])), ver, "public-copy-leaks-private",
+                                detail=" public_copy().subkey(%d, as_private=%s)" % (i, a))
+                expect_node("public-copy", pub, rpub, ver, "public-copy")
         except Mismatch as mm:
             return BAD(mm.cls, mm.ref, "after call %d: %s" % (step, mm.impl), n=step + 1, **mm.tags)
         except Exception as e:
